@@ -190,22 +190,24 @@ WordChars == {"a","b","c","d","e","f","g","h","i","j","k","l","m","n","o","p","q
               "A","B","C","D","E","F","G","H","I","J","K","L","M","N","O","P","Q","R","S","T","U","V","W","X","Y","Z",
               "0","1","2","3","4","5","6","7","8","9",
               "\"", "_", "-", "/", ".", "^", "#", "*", "@"}
-SingleTok == {"[", "]", "}", "{", ":", ")", "(", "~", ","}
-RECURSIVE RunEnd(_, _, _)
-\* last index of the run of characters of class C that starts at i
-RunEnd(s, i, C) == IF i < Len(s) /\ Ch(s, i + 1) \in C THEN RunEnd(s, i + 1, C) ELSE i
-RECURSIVE TokFrom(_, _)
-\* re.findall over  \[\[|\[|\]\]|\]|}|{|:  |  \)|\(|~  |  \?+|&&|\|\||,|[word]+ ; anything else is skipped
-TokFrom(s, i) ==
-    IF i > Len(s) THEN <<>>
-    ELSE LET c == Ch(s, i)
-             c2 == IF i < Len(s) THEN SubSeq(s, i, i + 1) ELSE ""
-         IN IF c2 \in {"[[", "]]", "&&", "||"} THEN <<c2>> \o TokFrom(s, i + 2)
-            ELSE IF c \in SingleTok THEN <<c>> \o TokFrom(s, i + 1)
-            ELSE IF c = "?" THEN LET j == RunEnd(s, i, {"?"}) IN <<SubSeq(s, i, j)>> \o TokFrom(s, j + 1)
-            ELSE IF c \in WordChars THEN LET j == RunEnd(s, i, WordChars) IN <<SubSeq(s, i, j)>> \o TokFrom(s, j + 1)
-            ELSE TokFrom(s, i + 1)
-Tokenize(s) == TokFrom(s, 1)
+SingleTok == {"}", "{", ":", ")", "(", "~", ","}          \* one-character tokens that never combine
+Chars(s) == [i \in 1..Len(s) |-> Ch(s, i)]
+\* re.findall over  \[\[|\[|\]\]|\]|}|{|:  |  \)|\(|~  |  \?+|&&|\|\||,|[word]+ ; anything else is skipped.
+\* One character at a time: `pend` is the token being read -- a run of word characters ("w"), a run
+\* of "?" ("q"), or a single "[", "]", "&", "|" that may still double.
+L0 == [out |-> <<>>, mode |-> "", pend |-> ""]
+LEmit(ls, t) == [out |-> Append(ls.out, t), mode |-> "", pend |-> ""]
+LFlush(ls) == IF ls.mode \in {"w", "q", "[", "]"} THEN LEmit(ls, ls.pend) ELSE [ls EXCEPT !.mode = "", !.pend = ""]
+LFresh(ls, c) == IF c \in {"[", "]", "&", "|"} THEN [ls EXCEPT !.mode = c, !.pend = c]
+                 ELSE IF c \in SingleTok THEN LEmit(ls, c)
+                 ELSE IF c = "?" THEN [ls EXCEPT !.mode = "q", !.pend = c]
+                 ELSE IF c \in WordChars THEN [ls EXCEPT !.mode = "w", !.pend = c]
+                 ELSE ls
+LStep(ls, c) == IF ls.mode = "w" /\ c \in WordChars THEN [ls EXCEPT !.pend = @ \o c]
+                ELSE IF ls.mode = "q" /\ c = "?" THEN [ls EXCEPT !.pend = @ \o c]
+                ELSE IF ls.mode \in {"[", "]", "&", "|"} /\ c = ls.mode THEN LEmit(ls, ls.pend \o c)
+                ELSE LFresh(LFlush(ls), c)
+Tokenize(s) == LFlush(FoldLeft(LStep, L0, Chars(s))).out
 
 Kind(t) == CASE t \in {",", "&&"} -> "and"
              [] t = "||" -> "or"
@@ -216,17 +218,15 @@ Kind(t) == CASE t \in {",", "&&"} -> "and"
 HasQ(t) == \E i \in 1..Len(t) : Ch(t, i) = "?"
 HasGroupChar(t) == \E i \in 1..Len(t) : Ch(t, i) \in GroupChars
 
-RECURSIVE BalFrom(_, _, _)
 Closer(o) == CASE o = "(" -> ")" [] o = "[" -> "]" [] o = "{" -> "}"
-BalFrom(s, i, st) ==
-    IF i > Len(s) THEN st = <<>>
-    ELSE LET c == Ch(s, i) IN
-         IF c \in {"(", "[", "{"} THEN BalFrom(s, i + 1, Append(st, c))
-         ELSE IF c \in {")", "]", "}"} THEN (IF st # <<>> /\ Closer(st[Len(st)]) = c
-                                             THEN BalFrom(s, i + 1, SubSeq(st, 1, Len(st) - 1)) ELSE FALSE)
-         ELSE BalFrom(s, i + 1, st)
+BStep(b, c) == IF ~b.ok THEN b
+               ELSE IF c \in {"(", "[", "{"} THEN [b EXCEPT !.st = Append(@, c)]
+               ELSE IF c \in {")", "]", "}"} THEN
+                    (IF b.st # <<>> /\ Closer(b.st[Len(b.st)]) = c THEN [b EXCEPT !.st = SubSeq(@, 1, Len(@) - 1)]
+                     ELSE [b EXCEPT !.ok = FALSE])
+               ELSE b
 \* the grouping symbols of the text are properly nested
-Balanced(s) == BalFrom(s, 1, <<>>)
+Balanced(s) == LET b == FoldLeft(BStep, [ok |-> TRUE, st |-> <<>>], Chars(s)) IN b.ok /\ b.st = <<>>
 
 (* ---- the parser as a pushdown automaton -------------------------------- *)
 \* lenient = TRUE: the behaviour of _handle_grouping_op, which takes ANY token that is not an
